@@ -138,6 +138,9 @@ func (db *DB) Start(initCheckpoints []recovery.CheckpointHandle) error {
 	latestCP := db.checkpoints.Latest()
 	db.sstables = latestCP.Levels
 	db.seqNum = latestCP.Levels.LatestSeqNum
+	// Table numbering restarts with every DB. Continue after the restored tables,
+	// their files may live in this DB's directory.
+	db.tableWriter.SkipPast(latestCP.Levels)
 
 	// Start a new writer that doesn't write to a file yet.
 	db.wal = wal.NewWriter(db.fs, latestCP.NextWALID(), db.maxWALSize)
